@@ -225,7 +225,61 @@ def gen_worklist():
         except Untranslatable as e:
             errors.append(f"{args[0].__qualname__}: {e}")
             out.extend([f"-- {args[0].__qualname__} could not be translated: {e}", ""])
+    try:
+        out.extend(translate_update_gtxn(cls._update_gtxn_constraints))
+    except Untranslatable as e:
+        errors.append(f"_update_gtxn_constraints: {e}")
+        out.extend([f"-- _update_gtxn_constraints could not be translated: {e}", ""])
     return "\n".join(out + ["end Tealer.Generated", ""]), errors
+
+
+
+
+# ---- _update_gtxn_constraints ----------------------------------------------------------------------------------------------
+def translate_update_gtxn(pyfn):
+    """one (key, ind) entry of the double loop: the value written to self._block_contexts[gtx_key][block]"""
+    tree = ast.parse(textwrap.dedent(inspect.getsource(pyfn))).body[0]
+    if [a.arg for a in tree.args.args] != ['self', 'keys_with_gtxn', 'block']: raise Untranslatable("signature of _update_gtxn_constraints")
+    body = [st for st in tree.body if not (isinstance(st, ast.Expr) and isinstance(st.value, ast.Constant))]
+    if len(body) != 1 or not isinstance(body[0], ast.For) or ast.unparse(body[0].target) != 'key' or ast.unparse(body[0].iter) != 'keys_with_gtxn':
+        raise Untranslatable("expected `for key in keys_with_gtxn:`")
+    inner = body[0].body
+    if len(inner) != 1 or not isinstance(inner[0], ast.For) or ast.unparse(inner[0].target) != 'ind' or ast.unparse(inner[0].iter) != 'range(MAX_GROUP_SIZE)':
+        raise Untranslatable("expected `for ind in range(MAX_GROUP_SIZE):`")
+    stmts = inner[0].body
+    if not stmts or ast.unparse(stmts[0]) != 'gtx_key = get_gtxn_at_index_key(ind, key)': raise Untranslatable("expected gtx_key = get_gtxn_at_index_key(ind, key)")
+    def expr(e):
+        s = ast.unparse(e)
+        if s == 'self._block_contexts[gtx_key][block]': return 'gtxCtx'
+        if s == 'self._block_contexts[key][block]': return 'baseCtx'
+        if isinstance(e, ast.Call):
+            f = ast.unparse(e.func)
+            if f == 'self._null_set' and len(e.args) == 1 and ast.unparse(e.args[0]) == 'gtx_key': return 'dom.null'
+            if f in ('self._intersection', 'self._union') and len(e.args) == 3 and ast.unparse(e.args[0]) == 'gtx_key':
+                return f"(dom.{'inter' if f.endswith('intersection') else 'union'} {expr(e.args[1])} {expr(e.args[2])})"
+        raise Untranslatable(s)
+    def cond(e):
+        s = ast.unparse(e)
+        if isinstance(e, ast.Compare) and len(e.ops) == 1 and isinstance(e.ops[0], (ast.In, ast.NotIn)) and ast.unparse(e.left) == 'ind' \
+                and ast.unparse(e.comparators[0]) == 'self._function.transaction_context(block).group_indices':
+            return '(groupIndices.contains ind)' if isinstance(e.ops[0], ast.In) else '(!(groupIndices.contains ind))'
+        raise Untranslatable(s)
+    def block(sts, ind):
+        out, pad = [], ' ' * ind
+        for st in sts:
+            if isinstance(st, ast.Assign) and len(st.targets) == 1 and ast.unparse(st.targets[0]) == 'self._block_contexts[gtx_key][block]':
+                out.append(f"{pad}gtxCtx := {expr(st.value)}"); continue
+            if isinstance(st, ast.If):
+                out.append(f"{pad}if {cond(st.test)} then"); out += block(st.body, ind + 2)
+                if st.orelse: out.append(f"{pad}else"); out += block(st.orelse, ind + 2)
+                continue
+            raise Untranslatable(ast.unparse(st)[:100])
+        return out
+    return ["/-- translated from DataflowTransactionContext._update_gtxn_constraints: the value it writes to",
+            "    self._block_contexts[get_gtxn_at_index_key(ind, key)][block] (one entry of the double loop over keys and indices);",
+            "    `groupIndices` = self._function.transaction_context(block).group_indices -/",
+            "def updateGtxnConstraints {D : Type} (dom : Tealer.Domain D) (groupIndices : List Nat) (ind : Nat) (gtxCtx baseCtx : D) : D := Id.run do",
+            "  let mut gtxCtx := gtxCtx"] + block(stmts[1:], 2) + ["  return gtxCtx", ""]
 
 
 if __name__ == '__main__':
